@@ -204,6 +204,20 @@ func (p *c04) Init(tier string) {
 		map[string]any{"id": 1.0, "k": "b", "s": "b", "z": 52.5200072, "a": 0.3},
 		map[string]any{"id": 2.0, "k": "a", "s": "-b", "z": 1e-9, "a": 1e15 + 0.5},
 	})
+	// string keys that collide when the columns of a composite key are joined with separators or
+	// length prefixes of various styles (every column differs, the concatenations do not)
+	p.left = append(p.left, []any{
+		map[string]any{"id": 0.0, "k": "k", "s": "1:v", "z": 1.0, "a": 1.0},
+		map[string]any{"id": 1.0, "k": "ab", "s": "c", "z": 1.0, "a": 1.0},
+		map[string]any{"id": 2.0, "k": "1:a", "s": "", "z": 1.0, "a": 1.0},
+		map[string]any{"id": 3.0, "k": "x|y", "s": "z", "z": 1.0, "a": 1.0},
+	})
+	p.right = append(p.right, []any{
+		map[string]any{"rid": 0.0, "k": "k3:", "s": "v", "b": 1.0, "m": 1.0},
+		map[string]any{"rid": 1.0, "k": "a", "s": "bc", "b": 1.0, "m": 1.0},
+		map[string]any{"rid": 2.0, "k": "", "s": "1:a", "b": 1.0, "m": 1.0},
+		map[string]any{"rid": 3.0, "k": "x", "s": "y|z", "b": 1.0, "m": 1.0},
+	})
 	p.right = append(p.right, []any{
 		map[string]any{"rid": 0.0, "k": "a", "s": "b", "b": 52.5200072, "m": 0.3},
 		map[string]any{"rid": 1.0, "k": "b", "s": "-b", "b": 52.5200071, "m": 0.30000000000000004},
